@@ -9,112 +9,112 @@ CHECKS = {
     "C01": dict(
         level="exploration",
         technique="runtime monitoring: real kernels executed on a sanitizing IR interpreter and through the LLVM JIT; result oracle = independent reference semantics (exact Fractions)",
-        text="Every generated evaluate kernel of ~7k (quick) / ~100k (thorough) seeded (assignment, formats, inputs, capacity) cases is run and its raw output compared exactly with a reference semantics written from the property text; held on the executions observed, not a proof.",
+        text="Every generated evaluate kernel of ~14k (quick) / ~150k (thorough) seeded (assignment, formats, inputs, capacity) cases - curated shapes, random grammar with metamorphic variants, a seeded third (quick) / all (thorough) of the 1578 bounded-exhaustive small expression trees, merge-lattice stress, medium sizes, orders 4-5, 6-10 operand lists, directly built Problems, hollow input prefixes, request preludes - is run on the abstract machine and a sample through the LLVM JIT, and its raw output compared exactly with a reference semantics written from the property text; held on the executions observed, not a proof.",
         note="Trusts refsem (expansion into signed products), the independent taco codec, and that dyadic inputs make every association order exact. Refusals are not failures; memory faults are judged by C05.",
         design="3/C01",
     ),
     "C02": dict(
         level="exploration",
         technique="runtime monitoring: independent structure validator over raw output arrays (abstract-machine heap with exact lengths + init bits; cffi arrays of JIT results), follow-up uses as cross-check",
-        text="Every output of evaluate / assemble+compute kernels (~6k quick) with a compressed level is decoded from its raw arrays and validated against the property's contract; JIT results are additionally pickled, converted, compared and fed to another kernel.",
+        text="Every output of evaluate / assemble+compute kernels with a compressed level (~35k kernel outputs per quick run: curated and random shapes, ALL 1578 small expression trees over compressed vectors with operands exhausted in different orders, every output format of simple shapes incl. order 4, wide operand lists) is decoded from its raw arrays and validated against the property's contract; JIT results are additionally pickled, converted, compared and fed to another kernel; operator results are validated too.",
         note="Trusts taco.validate (written from the property text). Over-long arrays are allowed; array lengths on real heaps are invisible (sanitizer legs of C05 see a too-short one).",
         design="3/C02",
     ),
     "C03": dict(
         level="exploration",
         technique="runtime monitoring: stored-prefix sets of each compressed output level vs structural support from an independent reference walk; branch counters show the written-flag gate was exercised",
-        text="For ~6k sparse-output executions (evaluate and assemble kernels, a JIT sample) biased to empty operands/rows/contractions, no compressed level stores a prefix outside the structural support.",
+        text="For ~15k sparse-output executions per quick run (evaluate and assemble kernels, a JIT sample) biased to empty operands/rows/contractions, with hollow input prefixes and a third of the small expression trees, no compressed level stores a prefix outside the structural support.",
         note="Support is computed by refsem over the inputs' stored sets in their own formats; the check is an upper bound (sparser outputs are fine).",
         design="3/C03",
     ),
     "C05": dict(
         level="exploration",
         technique="runtime monitoring / sanitizers: IR abstract machine (bounds, init bits, ownership, int32 range, scope, step budget) on all three kernel kinds x capacities; emitted C under gcc ASan+UBSan; LLVM JIT under valgrind memcheck",
-        text="~10k kernel executions per quick run (evaluate, assemble, compute-after-assemble; capacities 1..16 and default) are observed access by access; a sample of the same cases runs as emitted C under ASan+UBSan and as JIT code under valgrind.",
-        note="Abstract machine = our reading of the IR's C semantics (validated three-way against both back ends in C06). Termination is a step budget. Near-2^31 sizes are out of reach.",
+        text="~20k kernel executions per quick run (evaluate, assemble, compute-after-assemble; capacities 1..16 and default; huge dimensions on compressed levels, orders 4-5, every output format, wide operand lists) are observed access by access on the abstract machine; a sample runs as emitted C under ASan+UBSan and MSan and as JIT code under valgrind; six kernels run through the JIT beyond the default 2^20 capacity with million-iteration loops (a crash of that child is the observation).",
+        note="Abstract machine = our reading of the IR's C semantics (validated three-way against both back ends in C06). Termination is a step budget. Sizes near 2^31 elements are out of reach; dimension sizes up to 2^31-1 are exercised on compressed levels only.",
         design="3/C05",
     ),
     "C04": dict(
         level="exploration",
         technique="runtime monitoring of kernel histories on the IR abstract machine: allocation events, every store of compute, pointer/cell diffs of the structure, values vs a fresh evaluate; sampled under ASan as emitted C",
-        text="~1.1k histories per quick run (assemble; compute; 3x re-valued compute) on both request styles: assemble's structure equals evaluate's, compute performs no allocation, stores only into the value array, leaves every pos/crd cell and pointer unchanged and reproduces evaluate's values for every re-valuation.",
+        text="~1.2k histories per quick run (assemble; compute; 3x re-valued compute) on both request styles, with request preludes and directly built Problems: assemble's structure equals evaluate's, compute performs no allocation, stores only into the value array, leaves every pos/crd cell and pointer unchanged, and its values equal a fresh evaluate; a sample runs as emitted C under ASan.",
         note="Exact value comparison relies on dyadic inputs and identical operation order in compute and evaluate.",
         design="3/C04",
     ),
     "C07": dict(
         level="translation_validation",
         technique="runtime differential monitoring: original vs peephole-optimised IR executed on the sanitizing interpreter (return value, array contents, access sets), kernels captured at the generator's peephole binding + random well-typed trees",
-        text="~24k rewritten random trees x 4 environments and ~1.7k rewritten kernels per quick run are executed before and after optimisation; every documented rewrite shape is generated (counted); any fault, differing return value/array or new access in the optimised program is a violation.",
+        text="~24k rewritten random trees x 4 environments (dyadic and non-dyadic; a quarter with literals next to the identity elements) and ~1.7k rewritten kernels per quick run are executed before and after optimisation; every documented rewrite shape is generated (counted); any fault, differing return value/array or new access in the optimised program is a violation.",
         note="Programs whose original is unsafe or exceeds the budget are discarded (counted). Equivalence is on sampled states, not all states.",
         design="3/C07",
     ),
     "C16": dict(
         level="exploration",
         technique="runtime monitoring: loop-iteration counters of the abstract machine compared between runs with a qualifying dimension scaled x1..x10^4; negative control on non-qualifying indexes",
-        text="~1.8k (problem, formats, inputs, index) pairs per quick run meeting the syntactic precondition are executed at four scales; loop-iteration totals must be identical; ~1.4k non-qualifying pairs show growth (the counter measures).",
+        text="~2.2k (problem, formats, inputs, index) pairs per quick run meeting the syntactic precondition (curated, random, and the complete single-dense-level neighbourhood of the all-compressed assignment of 16 sum/contraction shapes, on inputs with empty slices) are executed at four scales; loop-iteration totals must be identical; non-qualifying pairs show growth (the counter measures).",
         note="Precondition decided from request text; work measured as loop-body executions of the IR, not machine instructions.",
         design="3/C16",
     ),
     "C09": dict(
         level="exploration",
         technique="runtime monitoring at the Tensor API boundary: independent canonical-structure validator and content oracle over raw arrays, items/to_dok, to_format, pickle; fault injection of out-of-range coordinates",
-        text="~50k constructions per quick run: every format of order 0..3 x small dimension tuples x every coordinate subset (bounded-exhaustive), random larger cases with duplicates/shuffles, four entry points; read-back, canonical raw structure, to_format, pickle and ~18k out-of-range injections.",
+        text="~60k constructions per quick run: every format of order 0..3 x small dimension tuples x every coordinate subset (bounded-exhaustive), random larger cases with duplicates/shuffles, four entry points, iterators / Format objects / omitted dimensions and format, all pickle protocols, copy, to_format chains, coordinates beyond 16 bits, arrays beyond 65536 elements; read-back, canonical raw structure, re-reads after the caller edited earlier results (aliasing monitor), rejection of out-of-range coordinates.",
         note="Content oracle = summed non-zero entries; explicit-zero storage not prescribed. Known finding K10 (out-of-range under a dense level dropped) is classified by mechanism.",
         design="3/C09",
     ),
     "C11": dict(
         level="exploration",
         technique="runtime monitoring at the operator boundary: results decoded from raw arrays vs exact dense arithmetic; exception-type and result-format oracles",
-        text="~6k operator calls per quick run over all operand format pairs of order 0..2, sampled order 3, scalars on either side, @ for all supported order pairs, and shape-mismatch probes.",
+        text="~7.6k operator calls per quick run over all operand format pairs of order 0..2, sampled order 3, scalars (int, float, bool, Fraction) on either side, chains (a op b) op c, @ for all supported order pairs, foreign operands, shape- and order-mismatch probes.",
         note="Exact arithmetic on dyadic operands; format rule checked only for natural-order operands.",
         design="3/C11",
     ),
     "C12": dict(
         level="exploration",
         technique="runtime monitoring of the parsers: totality on hostile strings, round-trip oracle, and a differential meaning oracle against Python's own expression parser at random rational points",
-        text="~60k hostile strings, 24k generated sentences (round trip + meaning at 3 points), all 443 formats of order <= 4, ~3k rejection probes per quick run.",
+        text="~60k hostile strings, 24k generated sentences incl. flat chains of up to 257 terms (tree = left fold; round trip; meaning at 3 points against Python's parser), all 443 formats of order <= 4, ~3k rejection probes per quick run.",
         note="Known findings: interpreter limits (RecursionError / 4300-digit ValueError) and non-finite float literal round trip, classified by mechanism with size thresholds.",
         design="3/C12",
     ),
     "C08": dict(
         level="exploration",
         technique="runtime monitoring of the generator entry points (library, tensor_method, CLI via CliRunner and real subprocess): exception-type oracle, sys.monitoring call budget, gcc -pedantic-errors syntax check of every emitted C module, llvmlite parse+verify of every LLVM module",
-        text="~4.3k requests per quick run (curated shapes x exhaustive/sampled formats x kind subsets x languages, random grammar, diagonal accesses, identifier spellings, literal classes, 200 CLI invocations): code or a documented refusal, never another exception; all ~1.7k C modules compile, all ~950 LLVM modules verify.",
-        note="Hang = 1e9 Python calls (200x the largest legitimate request seen). Known findings K7 (identifier collides with C/libc) and K8 (non-finite/huge literal) classified by predicate + counterfactual replay.",
+        text="~9k requests per quick run (curated shapes x exhaustive/sampled formats x kind subsets x languages, random grammar, diagonal accesses, identifier spellings, literal classes incl. finite literals with non-finite combinations, every order-4 output format of permuted copies, up to 12 co-iterated sparse operands, ~250 CLI invocations): code or a documented refusal, never another exception, hang or traceback; all emitted C is syntax-checked by gcc -pedantic-errors, all LLVM verified.",
+        note="Hang = 1e9 Python calls (200x the largest legitimate request seen). Known findings (identifier collisions with C/libc and with generated names, non-finite/huge literals, else-if chain deeper than the recursion limit for >= 9 co-iterated sparse operands) are classified by predicate + counterfactual replay.",
         design="3/C08",
     ),
     "C10": dict(
         level="fault_enumeration",
         technique="runtime fault injection at the call boundary with a counting wrapper on the compiled function pointer (kernel-entry event) and an exception-type oracle; shards in subprocesses so a crash is observed",
-        text="~7k single-fault calls per quick run: every way of making exactly one argument inconsistent (missing/extra/positional/non-Tensor/duck-typed/order/mode/ordering/each participant's dimension +-1) through tensor_method and evaluate; each must raise a documented error with the kernel-entry counter unchanged.",
-        note="Kernel entry observed at TensorMethod._evaluate (positive control per case: the consistent call advances it exactly once).",
+        text="~10k single-fault calls per quick run: every way of making exactly one argument inconsistent (missing/extra incl. one named like the target/positional/non-Tensor incl. str and duck-typed/order/mode/ordering/each participant's dimension +-1, zero-sized dimensions) through TensorMethod, tensor_method(str), evaluate and the cffi back end; each must raise a documented error before the kernel-entry counter advances.",
+        note="Kernel entry observed through a TensorMethod subclass whose _evaluate is a wrapping property (robust to where the attribute is assigned); positive control per case: the consistent call advances it exactly once.",
         design="3/C10",
     ),
     "C15": dict(
         level="exploration",
         technique="runtime differential monitoring across processes: SHA-256 of generated text under different PYTHONHASHSEED and request orders, CLI vs library, warm vs cleared vs fresh-process evaluate results, kernel-sharing identity/behaviour probes",
-        text="400 requests x 2 generations x 9 processes (5 hash seeds x 3 request orders) per quick run compared run to run; 100 CLI stdout/-o comparisons; 150 warm/cleared/fresh-process evaluate comparisons; 8 near-identical request pairs.",
+        text="~450 requests x 2 generations x 9 processes (5 hash seeds x 3 request orders) per quick run compared run to run, incl. reversed/repeated kind lists and the other language; ~320 CLI stdout/-o comparisons; 150 warm/cleared/fresh-process evaluate comparisons each followed by the same assignment with formats exchanged and keyword order reversed; 8 near-identical request pairs.",
         note="No golden text is stored; only disagreement between runs is a violation.",
         design="3/C15",
     ),
     "C14": dict(
         level="exploration",
         technique="runtime monitoring of concurrent client histories (call/return events from one monotonic clock) under stress: 1us switch interval + sys.monitoring yield injection in tensora/compile; result oracle = the same call made alone; crash observed per subprocess",
-        text="~3.7k calls per quick run from 2..16 threads mixing a cached kernel with varying inputs, a never-seen problem requested by all threads at once, distinct never-seen problems, cffi back end calls and concurrent del/gc; ~38k overlapping call pairs, ~14k overlapping cache-miss pairs, 360k injected yields; every result equals the sequential one.",
+        text="~3.7k calls per quick run from 2..16 threads mixing a cached kernel with varying inputs and dimensions, a never-seen problem requested by all threads at once (with and without a kernel: refusals must equal the sequential refusal), distinct never-seen problems, cffi back end bursts and concurrent del/gc; ~34k overlapping call pairs, 350k injected yields; every result compared with the call made alone and with the reference semantics.",
         note="Not all interleavings: no controlled scheduler for CPython+native code exists here (TSan/helgrind unusable on CPython/JIT); evidence reports the overlap achieved.",
         design="3/C14",
     ),
     "C06": dict(
         level="translation_validation",
         technique="runtime differential monitoring with sanitizers: one IR module executed by the sanitizing interpreter, by gcc-compiled emitted C under ASan+UBSan and by the JIT-compiled emitted LLVM; bit-for-bit output comparison; gcc -pedantic-errors and LLVM verifier on every module",
-        text="~1.4k programs per quick run (kernel modules incl. assemble/compute histories on ulp-sensitive values + random well-typed IR programs exercising precedence, promotion, min/max, bool->int, compound assignment, short-circuit guards) agree three ways bit for bit.",
+        text="~1.4k programs per quick run (kernel modules incl. assemble/compute histories on ulp-sensitive values and IEEE specials + random well-typed IR programs exercising precedence, promotion, min/max, bool->int, compound assignment, short-circuit guards, 17-digit literals) agree three ways bit for bit; emitted C is checked with -pedantic-errors under the published header, LLVM modules are verified.",
         note="Known finding K5 (C printer re-associates right-nested float + and *) classified by predicate + counterfactual (same module printed with parentheses preserved). Unsafe programs are discarded.",
         design="3/C06",
     ),
     "C13": dict(
         level="exploration",
         technique="runtime monitoring with an LD_PRELOAD malloc/realloc/free interposer (kernel blocks tagged inside a C trampoline around the compiled function pointer) + offline checker of the event log against a name->tensor->blocks ownership model",
-        text="~12k histories per quick run (every op-kind sequence of length <= 4 over eval/alias/rawref/read/pickle/feed/del/gc, random longer ones, a cffi back end sample, a 2000-iteration evaluation loop): no block freed while referenced, none freed twice, every block freed by the gc step after its last reference, kernel allocations exactly the arrays handed back, no input block touched.",
+        text="~17k histories per quick run (every op-kind sequence of length <= 4 over eval/alias/rawref/read/iter/pickle/feed/del/gc, random longer ones, directly built Problems, a cffi back end sample, a 2000-iteration evaluation loop): no block freed while referenced (a live items() iterator is a reference), none freed twice, all freed after the last reference and a gc step.",
         note="Bounded restatement of 'when the last reference disappears' (next gc step). Event order decides, not whether stale data is still readable.",
         design="3/C13",
     ),
